@@ -382,8 +382,12 @@ def cases(ctx):
                                 return {"what": "output options do not select exactly the library variant",
                                         "argv": argv[3:], "first_differences": diff}
                 # by file extension
-                for ext, fmt in ((".opb", "opb"), (".tex", "latex"), (".cnf", "dimacs")):
-                    p = os.path.join(tmp, "m" + ext)
+                os.makedirs(os.path.join(tmp, "d.tex"), exist_ok=True)
+                for ext, fmt in ((".opb", "opb"), (".tex", "latex"), (".cnf", "dimacs"), ("/../tex", "dimacs"), ("/../opb", "dimacs"),
+                                 ("/../.tex", "dimacs"), ("/../.opb", "dimacs"), ("/../d.tex/out", "dimacs"), ("/../d.tex/opb", "dimacs"),
+                                 (".tex.opb", "opb"), (".opb.tex", "latex"), ("/../out", "dimacs"), (".tex.cnf", "dimacs")):
+                    # "m/../name": a file called exactly `name` in the scratch directory
+                    p = os.path.join(tmp, ext[4:]) if ext.startswith("/../") else os.path.join(tmp, "m" + ext)
                     quiet(lambda: cli_cnfgen(["cnfgen", "-o", p, "--varnames"] + fam_argv, mode="output"))
                     F = lib()
                     buf = io.StringIO()
